@@ -18,6 +18,7 @@ import (
 	"context"
 	"reflect"
 
+	apiequality "k8s.io/apimachinery/pkg/api/equality"
 	"k8s.io/apimachinery/pkg/api/meta"
 	"k8s.io/apimachinery/pkg/runtime"
 	"k8s.io/apimachinery/pkg/util/validation/field"
@@ -129,9 +130,11 @@ func (s DefaultRESTStrategy) PrepareForUpdate(ctx context.Context, obj, old runt
 		specNew := reflect.ValueOf(obj).Elem().FieldByName("Spec")
 		specOld := reflect.ValueOf(old).Elem().FieldByName("Spec")
 
-		// Spec and annotation updates bump the generation.
-		if !reflect.DeepEqual(specNew.Interface(), specOld.Interface()) ||
-			!reflect.DeepEqual(accessorNew.GetAnnotations(), accessorOld.GetAnnotations()) {
+		// Spec and annotation updates bump the generation. Semantic equality: an empty list or map in the
+		// submitted object and the nil that comes back from storage for it are the same value, so
+		// submitting an unchanged manifest again is not a change.
+		if !apiequality.Semantic.DeepEqual(specNew.Interface(), specOld.Interface()) ||
+			!apiequality.Semantic.DeepEqual(accessorNew.GetAnnotations(), accessorOld.GetAnnotations()) {
 			accessorNew.SetGeneration(accessorOld.GetGeneration() + int64(1))
 		}
 	}
